@@ -182,20 +182,8 @@ func genScenario(r *vlib.PRNG, id string, ngpu int, timing bool) scenario {
 		// another queue of the same context (flush / dirty-tracking logic)
 		nq = 2*s.Threads + r.Intn(2)
 	}
-	sharedUsed := map[int]bool{}
 	for q := 0; q < nq; q++ {
 		qp := queuePlan{Thread: q % s.Threads, GPU: 1 + r.Intn(ngpu), N: 64 * (1 + r.Intn(4)), Blocking: r.Chance(1, 4), SharedCO: r.Chance(1, 3)}
-		// Known finding C12|second-queue-launches-cached-code-before-upload:
-		// within one process only one queue may use a given code object while
-		// its upload is still queued. The canonical battery reproduces that
-		// defect on its own; here at most one queue per thread (= process)
-		// shares code objects, which still exercises sharing across processes.
-		if qp.SharedCO && sharedUsed[qp.Thread] {
-			qp.SharedCO = false
-		}
-		if qp.SharedCO {
-			sharedUsed[qp.Thread] = true
-		}
 		ns := 3 + r.Intn(10)
 		if timing {
 			ns = 3 + r.Intn(5)
